@@ -293,10 +293,58 @@ func c16Case(g *Gen, p addchain.Program) {
 		bld2 = scriptDump(ch2)
 	})
 	g.Line("c16", encOps(p), bld)
+	c16CloneProbe(g, p)
 	if bld2 != "" && bld2 != bld {
 		g.Line("c16", encOps(p), bld2)
 		g.Count("second-build-differs")
 	}
+}
+
+// c16CloneProbe: history through ir.Program.Clone. The program is built (the passes leave their
+// results on it), cloned, the clone is extended by a doubling of the result, and the clone is built:
+// the script must be the one for the extended program (pass results of the original must not leak
+// into the clone). Only when the last operation is an addition and twice the last value is new, so
+// that Decompile of the extended program is Decompile of the program plus that doubling.
+func c16CloneProbe(g *Gen, p addchain.Program) {
+	n := len(p)
+	if n == 0 || p[n-1].I == p[n-1].J || (g.N%3 != 0 && n > 3) {
+		return
+	}
+	var chain addchain.Chain
+	if safe(func() { chain = p.Evaluate() }) != "" || len(chain) != n+1 {
+		return
+	}
+	twice := new(big.Int).Lsh(chain[n], 1)
+	for _, v := range chain {
+		if v.Cmp(twice) == 0 {
+			return
+		}
+	}
+	dump := "panic"
+	ok := false
+	safe(func() {
+		prog, err := acc.Decompile(p)
+		if err != nil {
+			return
+		}
+		if _, err := acc.Build(prog); err != nil {
+			return
+		}
+		cl := prog.Clone()
+		cl.AddInstruction(&ir.Instruction{Output: ir.Index(n + 1), Op: ir.Double{X: ir.Index(n)}})
+		ch, err := acc.Build(cl)
+		ok = true
+		if err != nil {
+			dump = "err"
+			return
+		}
+		dump = scriptDump(ch)
+	})
+	if !ok {
+		return
+	}
+	g.Line("c16", encOps(append(cloneOps(p), addchain.Op{I: n, J: n})), dump)
+	g.Count("clone-extend-build")
 }
 
 // c04Enum calls f on every program of exactly length n whose operands are in range (op k reads
